@@ -3,20 +3,20 @@ claim('C15', 'CBMC bounded symbolic execution of legal_path/check_valid_path and
       'Solver-decided (SAT, all inputs within bounds): the real path filter accepts no absolute path and no path with a ".." component for every string up to the stated length; counterexamples are replayed natively.',
       'Bounds: path length <= 6 (quick) / 9 (thorough). Stubs: logging off, strstr reference model. Host FS semantics and symlinks outside the claim.',
       'DESIGN.md 5/C15')
-claim('C13', 'CBMC inductive step of the real telnet decoder copy_chars (1 byte from any state; 2-3 byte split equivalence)',
-      'Solver-decided over all decoder states and input bytes: memory safety, state invariant, <=3 output bytes per input byte, no negotiation byte in command text; split invariance of the decoder for 2 (quick) / 3 (thorough) bytes. Inductive, so byte streams of any length are covered for the decoder.',
+claim('C13', 'CBMC inductive step of the real telnet decoder copy_chars (1 byte from any state; 2-3 byte split equivalence in the thorough tier), telnet_neg line editing, get_user_data read budget',
+      'Solver-decided over all decoder states and input bytes: memory safety, state invariant, <=3 output bytes per input byte, no negotiation byte in command text; split invariance of the decoder for 2 and 3 bytes (thorough tier only: > 10 min); line editing of every line of <= 4 (6) bytes against a reference; the reader never asks for more bytes than fit behind text_end. Inductive, so byte streams of any length are covered for the decoder.',
       'Output path and LPC applies are counting stubs; reader (get_user_data) segmentation and line editing are covered only as far as the listed harnesses go. unions compiled as structs in the CBMC encoding (DESIGN Corrections 1).',
       'DESIGN.md 5/C13')
 claim('C10', 'CBMC lemmas over a ghost due-time on the real timing wheel (insert, sweep, re-entrant sweep, query/cancel)',
       'Solver-decided single operations from arbitrary wheel states: new_call_out places the entry exactly at current_time+max(delay,1) for all delays in [-2,97]; call_out() fires exactly the due entries once, in order, dropping destructed owners, with error branches; re-entrant insert/remove/find from inside a callback; remove/find report due-now. Induction over operations gives histories of any length within the state bounds.',
       'States: <=3 entries in the swept slot + 1 elsewhere, deltas <= 3 (6), two concrete slot pairs (4 in thorough), string-named call_outs without arguments; free-list refill cut.',
       'DESIGN.md 5/C10')
-claim('C16', 'CBMC on real save_svalue/svalue_save_size/parse_numeric/restore_string/restore_svalue: windows of int64, all short strings, arbitrary damaged text per first-byte class',
-      'Solver-decided: sizing vs bytes written and exact round trip for integers in windows around every width/digit boundary and for every string up to 3 (5) bytes; restore of arbitrary text after each first-byte class is memory safe, returns success or a ROB error, leaves the parser state idle and the next restore unaffected.',
-      'Integers are covered in windows (stated in evidence), not the full 2^64 range in one query; floats, mappings and atomic-save crash points are not yet covered by this tree.',
+claim('C16', 'CBMC on real save_svalue/svalue_save_size/parse_numeric/restore_string/restore_svalue: windows of int64, all short strings, arbitrary damaged text for the string / number / other first-byte classes',
+      'Solver-decided: sizing vs bytes written and exact round trip for every integer with abs(n) < 10^7, for 2*10^6 integers around every power of ten, +-2^31, +-2^32 and both ends of int64 (thorough: also the whole 8-, 9-, 10-digit classes) and for every string up to 3 (5) bytes; restore of 4 (6) arbitrary bytes after a string, minus, digit or other first byte is memory safe, returns success or a ROB error, leaves the parser state idle and the next restore unaffected.',
+      'Integers are covered in windows (stated in evidence), not the full 2^64 range in one query (no verdict in 900 s); libc decimal formatting is modelled (guess-and-check and division models cross-checked); damaged text that starts a container ({ [ /) is NOT decided (symex of restore_internal_size does not finish, DESIGN corrections 17); floats, mappings and atomic-save crash points are not covered.',
       'DESIGN.md 5/C16')
-claim('C19', 'CBMC on real async_runtime_epoll.c with a kernel-semantics eventfd model; real async_queue.c one-operation contract with ghost lock (sequentialisation)',
-      'Solver-decided: any <=2 (3) posts before a wait vs the delivered events; queue operations from an arbitrary valid ring for each overflow policy incl. consumer activity while a writer is blocked; lock discipline.',
+claim('C19', 'CBMC on real async_runtime_epoll.c with kernel-semantics models of eventfd and O_NONBLOCK pipe; real async_queue.c one-operation contract with ghost lock (sequentialisation)',
+      'Solver-decided: any <=2 (3) posts before a sequence of waits of 1..4 events each vs the delivered events (each completion once with its key and data, nothing invented, nothing lost when posts exceed one wait); queue operations from an arbitrary valid ring for each overflow policy incl. consumer activity while a writer is blocked; lock discipline.',
       'timer.cpp / sync.cpp (C++) and the pthread worker are not encoded; mutual exclusion of the mutex is trusted; no weak-memory reasoning.',
       'DESIGN.md 5/C19')
 claim('C07', 'CBMC on real apply_low/find_function with names at fixed addresses: 2-call histories vs a reference resolver and visibility table',
@@ -48,7 +48,7 @@ claim('C20', 'CBMC on the real f_seteuid / f_export_uid with a nondeterministic 
       'give_uid_to_object (creator_file policy) is not yet covered; code after the gate is stubbed.',
       'DESIGN.md 5/C20')
 claim('C01', 'CBMC one-step symbolic execution of the real eval_instruction (VM step engine) per opcode and operand-kind case; real error() with an arbitrary vsnprintf result',
-      'Solver-decided per (opcode, operand kinds): from any VM state of the engine shape the step performs no out-of-bounds/null/freed access, no division trap, keeps sp and pc in range, leaves valid tags and the stack unwinds cleanly, or raises an LPC error. Indices of strings/buffers/lvalues and all numeric operands range over all int64; array rvalue indexing uses concrete (size,index) pairs incl. 32-bit truncation values.',
+      'Solver-decided per (opcode, operand kinds): from any VM state of the engine shape the step performs no out-of-bounds/null/freed access, no division trap, keeps sp and pc in range, leaves valid tags and the stack unwinds cleanly, or raises an LPC error. Indices of strings/buffers/lvalues and all numeric operands range over all int64; array rvalue indexing uses typed array blocks with every in-range position and concrete boundary / 32-bit-truncation probes (symbolic out-of-range classes in thorough and in C03); implode on 3-element arrays of every string/non-string pattern; incl. 32-bit truncation values.',
       'Covered opcodes: index/rindex (rvalue and lvalue), ranges on strings and buffers, arithmetic/comparison/bit/unary operators; efuns, calls, control flow, mappings, multi-step interactions and values longer than 3 are not yet covered. unions compiled as structs (hooks keep punned members in sync).',
       'DESIGN.md 5/C01')
 claim('C04', 'CBMC: VM step engine with symbolic size limits (LIMIT oracle), real do_catch with both setjmp branches, real function-entry stack check on a case grid',
@@ -60,22 +60,22 @@ claim('C06', 'CBMC: REF oracle on the VM step engine, real shared-string counter
       'Whole-run leak freedom, statistics counters, mappings/classes/function pointers and programs are outside; operand arrays are typed static objects with a second holder.',
       'DESIGN.md 5/C06')
 claim('C03', 'CBMC differential harnesses on the real code: code generator literal encoder -> interpreter, index opcodes vs a mathematical reference',
-      'Solver-decided for all int64 values: the literal the real write_long_number encodes is the value the real interpreter pushes; x[i] and x[<i] on strings and buffers return the referenced byte for in-range indices and raise an error for every out-of-range int64 index.',
+      'Solver-decided for all int64 values: the literal the real write_long_number encodes is the value the real interpreter pushes; x[i] and x[<i] on strings, buffers and arrays return the referenced element for in-range indices and raise an error for every out-of-range int64 index (arrays: typed blocks, index classes that cover all of int64).',
       'Only the literal and index parts of C03 are covered: op= vs op, loops, switch, folding, mappings and the compiler choice of opcodes are not; buffer element values are compared at index 0 only (CBMC struct-hack limitation).',
       'DESIGN.md 5/C03')
 claim('C02', 'CBMC on the real compiler locals bookkeeping (init_locals, add_local_name, reallocate_locals, de/reactivate, pop_n_locals) with the function-literal grammar actions replayed',
       'Solver-decided memory safety of every table write against the blocks really allocated, cursors back at base and no stale local binding after unwinding, limit on the total number of local slots across sibling blocks; per-level counts are concrete per run, everything else is executed symbolically.',
       'Only the locals kernel of C02 is covered: lexer, preprocessor, mem_block growth, scratchpad, identifier table and termination of yyparse are not; the bison actions are replayed, not called.',
       'DESIGN.md 5/C02')
-claim('C09', 'CBMC on the real process_io event dispatch with a NULL / sparse connection table and wake-up or console events',
-      'Solver-decided: a timer wake-up or a console completion arriving on a driver with no connection at all (table NULL), with an empty console slot or with a populated table is dispatched without memory errors, whatever the event bits and the outcome of the console reconnect.',
-      'Only this slice of C09 is covered: user socket events, the backend loop and its error recovery site, process_user_command callbacks and remove_interactive are not yet encoded (the heart-beat error clause is decided under C11, call_out error branches under C10).',
+claim('C09', 'CBMC on the real process_io event dispatch (NULL / sparse connection table), the real call_out sweep with errors injected into any firings, the real call_heart_beat round with the other periodic tasks enabled',
+      'Solver-decided: a timer wake-up or a console completion arriving on a driver with no connection at all (table NULL), with an empty console slot or with a populated table is dispatched without memory errors, whatever the event bits and the outcome of the console reconnect; an error in any subset of call_out firings leaves every other due entry firing exactly once; while call_outs and reset/clean_up run no heart beat is marked in progress, so an error there cannot switch off an innocent heart beat.',
+      'Only this slice of C09 is covered: user socket events, the backend loop and its error recovery site, process_user_command callbacks and remove_interactive are not encoded (the heart-beat error clause itself is decided under C11).',
       'DESIGN.md 5/C09')
 claim('C17', 'CBMC on the real load_binary staleness gate with a stub file system (symbolic mtimes, ids, names)',
-      'Solver-decided: the loader starts reading the program image only if the source and every listed include are not newer than the binary, the magic / driver id / configuration id match and the stored name matches; otherwise it returns out-of-date.',
-      'Only the gate of C17 is covered: inherited-program staleness, relocation and table re-sorting (locate_in, patch_in, sort_function_table) and equality with a fresh compile are not.',
+      'Solver-decided: the loader starts reading the program image only if the source and every listed include are not newer than the binary, the magic / driver id / configuration id match and the stored name matches; otherwise it returns out-of-date; for a program with one inherit the inherited program is only resolved when its source and its own saved binary (SaveBinaryDir with a leading slash) are not newer than this binary.',
+      'Only the gate of C17 is covered: relocation and table re-sorting (locate_in, patch_in, sort_function_table) and equality with a fresh compile are not.',
       'DESIGN.md 5/C17')
-claim('C08', 'CBMC inductive step of the real move_object from an arbitrary forest over 3 objects with havoc-to-invariant init() callbacks',
-      'Solver-decided: from any acyclic environment/inventory forest and any flags, move_object keeps the forest invariant (each object on exactly the inventory list of its environment, no cycles) after the move, at every init() callback and on the error path, with each callback replacing the graph by another arbitrary forest; a plain move puts the item into its destination.',
-      'Only move_object of C08 is covered: name table (otable), destruct_object, load/clone name bookkeeping and the efun guards are not; callbacks are havoc (not real nested calls); 3 objects.',
+claim('C08', 'CBMC inductive step of the real move_object and destruct_object from an arbitrary forest over 3 objects with havoc-to-invariant callbacks; real f_move_object with a havoc destination lookup',
+      'Solver-decided: from any acyclic environment/inventory forest and any flags, move_object keeps the forest invariant (each object on exactly the inventory list of its environment, no cycles) after the move, at every init() callback and on the error path, with each callback replacing the graph by another arbitrary forest; a plain move puts the item into its destination; destruct_object leaves the destructed object in no inventory, holding nothing and off the object list whatever the move_or_destruct() callback of its contents did; the move_object efun never moves an object that create() of the destination destructed.',
+      'Name table (otable), living names, heart beats and connections are contract stubs in destruct_object; load/clone name bookkeeping and the other efun guards are not covered; callbacks are havoc (not real nested calls); 3 objects.',
       'DESIGN.md 5/C08')
